@@ -218,6 +218,47 @@ def decide(script, trial_id, step):
   return 'complete' if _h(script['salt'], 'cmp', trial_id, step) < script['p_complete'] else 'wait'
 
 
+# Metric values a real study can report and that every hop of the state
+# (float32 arrays, JSON text, KeyValue protos, SQL) has to carry unchanged:
+# diverged runs (+-inf), undefined results (NaN), values beyond float32 range,
+# denormals, the negative zero, values that are not exactly representable in
+# float32 / in 6 decimals. Opt-in through script['special'] = {'p', 'values'}
+# (strings, parsed with float()); scripts without the key behave as before.
+SPECIAL_VALUES = ['inf', '-inf', 'nan', '1e300', '-1e300', '1e39', '3.4028235e38',
+                  '5e-324', '1e-310', '-0.0', '0.1', '123456789.12345679',
+                  '-0.3333333333333333']
+NONFINITE_VALUES = ['inf', '-inf', 'nan']
+
+
+def gen_special(rng, p_none=0.45):
+  """A profile of unusual metric values, or None (drawn by the caller's rng).
+
+  Two thirds of the profiles hold only non-finite values, the rest a mix of the
+  whole list with at least one non-finite value.
+  """
+  u = rng.random()
+  kind = rng.random()
+  n = rng.randint(1, 3)
+  p = rng.choice([0.25, 0.4, 0.6])
+  values = rng.sample(NONFINITE_VALUES, n)
+  more = rng.sample(SPECIAL_VALUES, rng.randint(2, 4))
+  if u < p_none:
+    return None
+  if kind >= 0.65:
+    values = sorted(set(values[:1] + more))
+  return {'p': p, 'values': sorted(values)}
+
+
+def special_value(script, trial_id, metric_index):
+  sp = script.get('special')
+  if not sp:
+    return None
+  if _h(script['salt'], 'sp', trial_id, metric_index) >= sp['p']:
+    return None
+  vals = sp['values']
+  return float(vals[int(_h(script['salt'], 'spv', trial_id, metric_index) * len(vals)) % len(vals)])
+
+
 def complete_trial(pd, script, trial, verdict):
   from vizier import pyvizier as vz
   params = trial.parameters.as_dict()
@@ -226,16 +267,22 @@ def complete_trial(pd, script, trial, verdict):
     return
   metrics = {}
   k = 0
-  for m in pd['metrics']:
+  n_special = 0
+  for j, m in enumerate(pd['metrics']):
     if m.get('safety') is not None:
       metrics[m['name']] = round(_h(script['salt'], 'safe', trial.id), 6)
     else:
       metrics[m['name']] = objective(pd, script['salt'], params, k)
       k += 1
+    sp = special_value(script, trial.id, j)
+    if sp is not None:
+      metrics[m['name']] = sp
+      n_special += 1
   if verdict == 'infeasible':
     trial.complete(vz.Measurement(metrics=metrics), infeasibility_reason='scripted')
   else:
     trial.complete(vz.Measurement(metrics=metrics))
+  return n_special
 
 
 # ---------------------------------------------------------------------------
